@@ -95,6 +95,8 @@ impl MultiPeerBackend for SubSocketBackend {
         for message in subs_msgs {
             send_queue.send(Message::Message(message)).await.unwrap();
         }
+        #[cfg(feature = "verif-hooks")]
+        crate::__verif::yield_point("sub.join.after_snapshot").await;
 
         self.peers
             .upsert_async(peer_id.clone(), Peer { send_queue })
@@ -150,6 +152,8 @@ impl SubSocket {
         let mut iter = self.backend.peers.begin_async().await;
 
         while let Some(mut peer) = iter {
+            #[cfg(feature = "verif-hooks")]
+            crate::__verif::yield_point("sub.process_subs.peer").await;
             peer.send_queue
                 .send(Message::Message(message.clone()))
                 .await?;
